@@ -134,7 +134,8 @@ def generate(rng, opts):
         fault = ["swap", r.randrange(max(1, n - 1))]
     reads = [{"via": r.choice([1, 1, 2]), "buffersize": r.choice(BUFSIZES), "chunks": r.choice(CHUNKS)}
              for _ in range(opts.get("json_reads", 2))]
-    return {"docs": [vm.to_jsonable(d) for d in docs], "text": text.hex(), "fault": fault, "reads": reads,
+    alloc_fail = r.choice([0, 1, 2, 3, 5, 8, 13, 21, 34]) if fault is None and r.random() < 0.5 else None
+    return {"docs": [vm.to_jsonable(d) for d in docs], "text": text.hex(), "fault": fault, "reads": reads, "alloc_fail": alloc_fail,
             "initial": r.choice(bm.INITIAL), "resize": r.choice(bm.RESIZE), "cfg": cfg,
             "out": {"maxdecimals": r.choice([-1, -1, -1, 3]), "buffersize": r.choice(BUFSIZES)}}
 
@@ -283,6 +284,40 @@ def check_one(node, case, rec, data, label, fault_kind, do_output):
         if o2[0] == "value":
             node.drop(o2[2])
         rec.probe("chunked_reads_compared")
+    # an allocation failure inside the reader: an ordinary error or the right value, never a crash or another value;
+    # and the reader works again afterwards
+    k_fail = case.get("alloc_fail")
+    if k_fail is not None and label == "intact" and node.alloc_supported():
+        fired = [False]
+
+        def faulted_parse():
+            node.alloc_arm(k_fail)
+            try:
+                return parse_real(node, 0, data, case)
+            finally:
+                fired[0] = node.alloc_disarm()[0]      # the seam covers the reader only, not the harness' own dump
+        o3 = outcome(node, faulted_parse)
+        fired = fired[0]
+        if fired:
+            rec.fault("allocation_failure")
+            if o3[0] == "raise":
+                if o3[1] == "nonstd":
+                    raise Violation("robustness", "nonstd_exception", {"text": show_text(data), "error": [o3[1], o3[2][:200]]})
+            elif o[0] != "value" or not vm.same(o[1], o3[1]):
+                raise Violation("robustness", "allocation_failure_gave_another_result",
+                                {"text": show_text(data), "with_failure": vm.to_jsonable(o3[1]),
+                                 "without": o[1] if o[0] == "raise" else vm.to_jsonable(o[1])})
+            o4 = outcome(node, lambda: parse_real(node, 0, data, case))
+            same = (o[0] == o4[0]) and (o[0] == "raise" or vm.same(o[1], o4[1]))
+            if not same:
+                raise Violation("robustness", "reader_differs_after_allocation_failure",
+                                {"text": show_text(data), "before": o[1] if o[0] == "raise" else vm.to_jsonable(o[1]),
+                                 "after": o4[1] if o4[0] == "raise" else vm.to_jsonable(o4[1])})
+            if o4[0] == "value":
+                node.drop(o4[2])
+            rec.probe("recovered_after_allocation_failure")
+        if o3[0] == "value":
+            node.drop(o3[2])
     if o[0] == "value":
         if do_output and ref.status == "ok" and len(ref.docs) >= 1:
             check_output(node, case, rec, o[2], o[1])
@@ -554,7 +589,7 @@ RULE = ("one run = 1..5 seeded documents rendered by the framework's emitter (wh
         "pattern x stdio buffering); the faulted bytes are classified by a strict reference parser. distinct = hash "
         "of (document shapes, fault kind, token class at the fault position, buffer class); non-trivial = a fault "
         "was injected or the text has at least 10 bytes")
-REQUIRED_PROBES = {"quick": ["chunked_reads_compared", "outputs_checked", "roundtrips_checked", "exhaustive_truncation_sweeps"],
+REQUIRED_PROBES = {"quick": ["recovered_after_allocation_failure", "chunked_reads_compared", "outputs_checked", "roundtrips_checked", "exhaustive_truncation_sweeps"],
                    "thorough": ["chunked_reads_compared", "outputs_checked", "roundtrips_checked", "exhaustive_truncation_sweeps"]}
 
 
